@@ -3,6 +3,7 @@ import AlgopyVerif.Model.NdArray
 import AlgopyVerif.Model.Utpm
 import AlgopyVerif.Model.QI
 import AlgopyVerif.Model.Dtype
+import AlgopyVerif.Model.Heap
 import Lean.Data.Json
 /-!
 # Request dispatch of the model driver (JSON codec + operation table)
@@ -103,6 +104,7 @@ def seriesFn (name : String) (lv : List K) (pr : List K) (n : Nat) (x : List K) 
   | "absolute" => pure [absoluteS (l 0) (l 1) x]
   | "sign" => pure [signS (l 0) x]
   | "clip" => pure [clipS (l 0) (l 1) x]
+  | "mul_alias_xy" => pure [mulOutAliasXY x]
   | _ => throw s!"bad-fn {name}"
 
 /-- apply a multi-output element-wise function to a UTPM array -/
@@ -138,6 +140,19 @@ def handleK (j : Json) : Except String Json := do
     let n := (j.getObjValAs? Nat "n").toOption.getD 0
     let nout := (j.getObjValAs? Nat "nout").toOption.getD 1
     pure (okArrs (← mapSn name leaves pr n nout x))
+  | "ew2" =>
+    -- binary series-level kernels on same-shape UTPM arrays (heap models of aliased kernels)
+    let fn ← j.getObjValAs? String "fn"
+    let x : NdArray K ← getArr j "x"
+    let y : NdArray K ← getArr j "y"
+    let f : List K → List K → List K ← match fn with
+      | "mul_alias_y" => pure mulOutAliasY
+      | "mul_alias_x" => pure mulOutAliasX
+      | "imul" => pure imulS
+      | "mul" => pure mulS
+      | "div" => pure divS
+      | _ => throw s!"bad-fn {fn}"
+    optArr (zipS2 f x y)
   | "bin" =>
     -- kinds: "uu" UTPM∘UTPM, "us" UTPM∘scalar, "ua" UTPM∘ndarray, "su" scalar∘UTPM, "au" ndarray∘UTPM
     let fn ← j.getObjValAs? String "fn"
